@@ -232,6 +232,9 @@ func (s *Sess) sortOf(t types.Type) string {
 	case *types.Signature:
 		return "Any"
 	case *types.TypeParam:
+		if sub, ok := tpSubst[tt]; ok {
+			return s.sortOf(sub)
+		}
 		// core type?
 		if u := coreType(tt); u != nil {
 			return s.sortOf(u)
@@ -245,7 +248,14 @@ func (s *Sess) sortOf(t types.Type) string {
 	return "Any"
 }
 
+// tpSubst: type-parameter instantiation of the generic callee currently being
+// inlined (stack discipline: set and restored by inlineCall).
+var tpSubst = map[*types.TypeParam]types.Type{}
+
 func coreType(tp *types.TypeParam) types.Type {
+	if sub, ok := tpSubst[tp]; ok {
+		return sub.Underlying()
+	}
 	iface, ok := tp.Constraint().Underlying().(*types.Interface)
 	if !ok {
 		return nil
@@ -345,7 +355,7 @@ func (s *Sess) fnIndex(elem string) string {
 	mem := s.fnMem(elem)
 	s.decl("fn:"+name, hintMark+name+";"+fmt.Sprintf(
 		"(declare-fun %s ((GSeq %s) %s) Int)\n"+
-			"(assert (forall ((s (GSeq %s)) (x %s)) (! (and (>= (%s s x) (- 1)) (< (%s s x) (sq.len s)) (ite (%s s x) (and (>= (%s s x) 0) (= (select (sq.arr s) (%s s x)) x)) (= (%s s x) (- 1)))) :pattern ((%s s x)))))\n"+
+			"(assert (forall ((s (GSeq %s)) (x %s)) (! (=> (>= (sq.len s) 0) (and (>= (%s s x) (- 1)) (< (%s s x) (sq.len s)) (ite (%s s x) (and (>= (%s s x) 0) (= (select (sq.arr s) (%s s x)) x)) (= (%s s x) (- 1))))) :pattern ((%s s x)))))\n"+
 			"(assert (forall ((s (GSeq %s)) (x %s) (j Int)) (! (=> (and (<= 0 j) (< j (%s s x))) (not (= (select (sq.arr s) j) x))) :pattern ((%s s x) (select (sq.arr s) j)))))",
 		name, elem, elem,
 		elem, elem, name, name, mem, name, name, name, name,
@@ -501,43 +511,49 @@ type SolverResult struct {
 
 type solverSpec struct {
 	name string
-	args func(file string, timeoutS int) []string
+	args func(file string) []string
 }
 
-// The race: solver instability (the same query proved in 0.2 s with one random
-// seed and timing out with another) is countered by racing seeds and versions.
+// Solver budgets are CPU-time limits (ulimit -t), not wall-clock limits: a
+// verdict must not depend on how busy the machine is. A generous wall-clock cap
+// only guards against a wedged process.
 var solvers = []solverSpec{
-	{"z3-new", func(f string, t int) []string { return []string{"z3-new", fmt.Sprintf("-T:%d", t), f} }},
-	{"z3", func(f string, t int) []string { return []string{"z3", fmt.Sprintf("-T:%d", t), f} }},
-	{"cvc5", func(f string, t int) []string {
-		return []string{"cvc5", "--incremental", fmt.Sprintf("--tlimit=%d", t*1000), f}
-	}},
-	{"z3-new/seed1", func(f string, t int) []string {
-		return []string{"z3-new", fmt.Sprintf("-T:%d", t), "smt.random_seed=1", f}
-	}},
-	{"z3-new/seed2", func(f string, t int) []string {
-		return []string{"z3-new", fmt.Sprintf("-T:%d", t), "smt.random_seed=2", f}
-	}},
-	{"z3-new/seed3", func(f string, t int) []string {
-		return []string{"z3-new", fmt.Sprintf("-T:%d", t), "smt.random_seed=3", f}
-	}},
-	{"z3/seed7", func(f string, t int) []string {
-		return []string{"z3", fmt.Sprintf("-T:%d", t), "smt.random_seed=7", f}
-	}},
+	{"z3-new", func(f string) []string { return []string{"z3-new", f} }},
+	{"z3", func(f string) []string { return []string{"z3", f} }},
+	{"cvc5", func(f string) []string { return []string{"cvc5", "--incremental", f} }},
+	{"z3-new/seed1", func(f string) []string { return []string{"z3-new", "smt.random_seed=1", f} }},
+	{"z3-new/seed2", func(f string) []string { return []string{"z3-new", "smt.random_seed=2", f} }},
+	{"z3-new/seed3", func(f string) []string { return []string{"z3-new", "smt.random_seed=3", f} }},
+	{"z3/seed7", func(f string) []string { return []string{"z3", "smt.random_seed=7", f} }},
 }
 
-func runSolver(ctx context.Context, sp solverSpec, file string, timeoutS int) SolverResult {
+const wallFactor = 8
+
+func runSolver(ctx context.Context, sp solverSpec, file string, cpuS int) SolverResult {
 	t0 := time.Now()
-	args := sp.args(file, timeoutS)
-	cctx, cancel := context.WithTimeout(ctx, time.Duration(timeoutS+2)*time.Second)
+	args := sp.args(file)
+	cctx, cancel := context.WithTimeout(ctx, time.Duration(cpuS*wallFactor+5)*time.Second)
 	defer cancel()
-	cmd := exec.CommandContext(cctx, args[0], args[1:]...)
+	var quoted []string
+	for _, a := range args {
+		quoted = append(quoted, "'"+strings.ReplaceAll(a, "'", "'\\''")+"'")
+	}
+	sh := fmt.Sprintf("ulimit -t %d; exec %s", cpuS, strings.Join(quoted, " "))
+	cmd := exec.CommandContext(cctx, "bash", "-c", sh)
 	var out bytes.Buffer
 	cmd.Stdout = &out
 	cmd.Stderr = &out
 	_ = cmd.Run()
 	res := SolverResult{Solver: sp.name, Seconds: time.Since(t0).Seconds(), Output: out.String()}
-	first := strings.TrimSpace(strings.SplitN(out.String(), "\n", 2)[0])
+	first := ""
+	for _, ln := range strings.Split(out.String(), "\n") {
+		ln = strings.TrimSpace(ln)
+		if ln == "" || strings.HasPrefix(ln, "WARNING") {
+			continue
+		}
+		first = ln
+		break
+	}
 	switch {
 	case first == "unsat":
 		res.Status = "unsat"
@@ -545,20 +561,24 @@ func runSolver(ctx context.Context, sp solverSpec, file string, timeoutS int) So
 		res.Status = "sat"
 	case first == "unknown":
 		res.Status = "unknown"
-	case strings.Contains(first, "timeout") || cctx.Err() != nil:
+	case first == "" || strings.Contains(first, "timeout") || cctx.Err() != nil:
+		// killed by the CPU limit (no output) or the wall cap
 		res.Status = "timeout"
+		if res.Output == "" {
+			res.Output = fmt.Sprintf("no answer within %d s of CPU time", cpuS)
+		}
 	default:
 		res.Status = "error"
 	}
 	return res
 }
 
-// solveRace: stage 1 z3-new with a short budget, stage 2 all solvers in parallel.
-func solveRace(file string, timeoutS int, sem chan struct{}) SolverResult {
+// solveRace: stage 1 z3-new with a short budget, stage 2 all solver variants in parallel.
+func solveRace(file string, cpuS int, sem chan struct{}) SolverResult {
 	sem <- struct{}{}
 	short := 4
-	if timeoutS < short {
-		short = timeoutS
+	if cpuS < short {
+		short = cpuS
 	}
 	r := runSolver(context.Background(), solvers[0], file, short)
 	<-sem
@@ -576,12 +596,17 @@ func solveRace(file string, timeoutS int, sem chan struct{}) SolverResult {
 			defer wg.Done()
 			sem <- struct{}{}
 			defer func() { <-sem }()
-			ch <- runSolver(ctx, sp, file, timeoutS)
+			if ctx.Err() != nil {
+				ch <- SolverResult{Solver: sp.name, Status: "timeout"}
+				return
+			}
+			ch <- runSolver(ctx, sp, file, cpuS)
 		}(sp)
 	}
 	go func() { wg.Wait(); close(ch) }()
 	best := first
 	var errs []string
+	nerr := 0
 	for r := range ch {
 		if r.Status == "unsat" {
 			cancel()
@@ -591,10 +616,11 @@ func solveRace(file string, timeoutS int, sem chan struct{}) SolverResult {
 			best = r
 		}
 		if r.Status == "error" {
+			nerr++
 			errs = append(errs, r.Solver+": "+firstLines(r.Output, 3))
 		}
 	}
-	if best.Status == "error" || (best.Status != "sat" && len(errs) == len(solvers)) {
+	if best.Status == "error" || (best.Status != "sat" && nerr == len(solvers)) {
 		best.Status = "error"
 		best.Output = strings.Join(errs, "\n")
 	}
